@@ -68,6 +68,22 @@ Theorem c36_drain_quiesces : forall s,
 Proof. exact drain_quiesces. Qed.
 Print Assumptions c36_drain_quiesces.
 
+(* resolver errors: the stream ends with the resolver's error only when the directive is idle with
+   a real (non-cancellation) first resolver error, and then the next send-loop iteration does end it;
+   in every other case c36_quiescent_state applies (it has no hypothesis on errors): the idle flip
+   that arrives together with the first resolver error is reported *)
+Theorem c36_error_end : forall l,
+  let s := fst (run init l) in
+  result s = 1%nat -> idle s = true /\ res_err s = true /\ res_real s = true.
+Proof. exact error_end_sound. Qed.
+Print Assumptions c36_error_end.
+
+Theorem c36_error_returned : forall s,
+  result s = 0%nat -> woken s = true -> idle s = true -> res_err s = true -> res_real s = true ->
+  result (fst (step s Drain)) = 1%nat.
+Proof. exact drain_returns_error. Qed.
+Print Assumptions c36_error_returned.
+
 (* component ids of valid requests (non-empty service id) decode back to the same request;
    base58 as an encoding that decodes what it encoded, for non-empty data *)
 Theorem c36_rt : forall (b58enc : bytes -> bytes) (b58dec : bytes -> option bytes),
@@ -83,8 +99,8 @@ Print Assumptions c36_rt.
 (* non-vacuity: a well-formed history with two providers, and what it reports;
    without the bus contract (same id added twice) Exists would be repeated *)
 Example c36_nonvacuous :
-  wf_hist init [Add 1 true; Add 2 true; IdleCb true false; Remove 1; Remove 2; Add 3 true] /\
-  snd (run init [Add 1 true; Add 2 true; IdleCb true false; Remove 1; Remove 2; Add 3 true])
+  wf_hist init [Add 1 true; Add 2 true; IdleCb true false false; Remove 1; Remove 2; Add 3 true] /\
+  snd (run init [Add 1 true; Add 2 true; IdleCb true false false; Remove 1; Remove 2; Add 3 true])
     = [RExists; RIdle true; RRemoved; RExists] /\
   snd (run init [Add 1 true; Add 1 true]) = [RExists; RExists] /\
   (* the last provider vanishes while Exists is being written (between two Drain regions) *)
